@@ -186,8 +186,10 @@ class VectorContainer:
         if dtype is not None:
             value_as_array = value_as_array.astype(dtype)
 
-        # Check dimensions
-        if value_as_array.shape[0] != len(self.__dict__['span']):
+        # Check dimensions (a sub-array `dtype` such as '2f8' adds a dimension)
+        if value_as_array.ndim != 1 or value_as_array.shape[0] != len(
+            self.__dict__['span']
+        ):
             raise DimensionError(
                 f"Invalid assignment for '{name}': "
                 f"must be either a single value or "
